@@ -4,8 +4,13 @@ sets), built from the real commands of `Ca/CertAuth.lean`:
 `ca_sync_parent` (manager.rs:1588-1615, 1722-1760, 1913-1991) – "has pending requests → send them
 (revocations first, then certificate requests, handle every response) else fetch the
 entitlements and store `UpdateEntitlements`" – against `CertAuth::list` / `issue` / `revoke` of
-the parent (certauth.rs:940-1084, 1338-1470).  A refused certificate request makes the child drop
-the class (manager.rs:1843-1880).  Import-free (model files only).
+the parent (certauth.rs:940-1084, 1338-1470).  A certificate request that a krill parent refuses
+comes back as an error, never as an RFC 6492 1201/1202/1204 response (manager.rs:2377-2397 for a
+local parent, an HTTP error for a remote one): the child keeps the request (manager.rs:1961-1980;
+replayed: corpus/system-findings/c02-h-request-for-lost-class.ops).  An issued certificate that the
+child's `UpdateRcvdCert` refuses makes the child drop the class (`handle_cert_response`,
+manager.rs:2090-2128; replayed: corpus/system-findings-limit/c02-b-limit-grandchild-shrink.ops).
+Import-free (model files only).
 -/
 import KrillModel.Ca.Preds
 namespace KM.CaK
@@ -46,16 +51,23 @@ def Ca.issuedFor (p : Ca) (ch : Handle) (childRcn : Rcn) (ki : KeyId) : Option C
     | none => none
     | some rc => get rc.certs.issued ki
 
-/-- One certificate request of class `r` of the child, with the response handled. -/
+/-- `handle_cert_response` for an issue response (manager.rs:2028-2128): `UpdateRcvdCert`; if that
+command fails, `DropResourceClass`. -/
+def Sys.receiveOrDrop (s : Sys) (r : Rcn) (ki : KeyId) (cert : Cert) (na : Int) : Sys :=
+  match s.exec (.updateRcvdCert r ki cert na []) with
+  | .stored _ s' => s'
+  | _ => s.next (.dropClass r)
+
+/-- One certificate request of class `r` of the child, with the response handled.  A request the
+parent refuses changes nothing: the request stays open. -/
 def Pair.certRequest (x : Pair) (r : Rcn) (parentRcn : Rcn) (ki : KeyId) (na : Int) : Pair :=
   match x.parent.exec (.childCertify x.ch parentRcn ki none na) with
   | .stored _ p' =>
     match p'.ca.issuedFor x.ch parentRcn ki with
     | some cc =>
-      { x with parent := p',
-               child := x.child.next (.updateRcvdCert r ki { res := cc.res, na := cc.na } na []) }
+      { x with parent := p', child := x.child.receiveOrDrop r ki { res := cc.res, na := cc.na } na }
     | none => { x with parent := p' }
-  | _ => { x with child := x.child.next (.dropClass r) }
+  | _ => x
 
 /-- The requests of one class: revocation first, then the certificate requests. -/
 def Pair.classRequests (x : Pair) (r : Rcn) (na : Int) : Pair :=
@@ -71,7 +83,7 @@ def Pair.classRequests (x : Pair) (r : Rcn) (na : Int) : Pair :=
           | _ => x
         | none => x
       rc.keys.certRequests.foldl (fun y ki =>
-        -- the class may have been dropped by an earlier refused request
+        -- the class may have been dropped after an earlier response (refused `UpdateRcvdCert`)
         if (get y.child.ca.classes r).isSome then y.certRequest r rc.parentRcn ki na else y) x1
 
 /-- One `ca_sync_parent`: `now` is the child's clock, `na` the not-after the parent offers and
